@@ -18,7 +18,7 @@ from hv import Case
 from props import c16
 
 SPEC = {
-    "lean_modules": ["Honeycomb.Props.C17", "Honeycomb.Props.C17Surf", "Honeycomb.Props.C16Grid", "Honeycomb.Props.C16EdgeInsert", "Honeycomb.Props.C16Chain", "Honeycomb.Props.C16ChainGrid"],
+    "lean_modules": ["Honeycomb.Props.C17", "Honeycomb.Props.C17Surf", "Honeycomb.Props.C16Grid", "Honeycomb.Props.C16EdgeInsert", "Honeycomb.Props.C16Chain", "Honeycomb.Props.C16ChainGrid", "Honeycomb.Props.C16Step5Pipe"],
     "gen": ["anchors"],
     "required_theorems": [
         "C17_classify_frame", "C17_classify_WF", "C17_classify_ok_all_anchored",
@@ -30,7 +30,7 @@ SPEC = {
         "C17_vertex_merge_comm", "C17_vertex_merge_idem", "C17_vertex_merge_assoc", "C17_vertex_merge_lower_dim",
         "C17_vertex_merge_fails_iff", "C17_edge_merge_fails_iff", "C17_face_merge_fails_iff",
         "C16_shift_loop_terminates", "C16_shift_loop_exit", "C17_no_vertex_on_grid_line",
-        "C16_insertOneEdge_shape", "C16_insert_edges_inv", "C16_poi_are_vertices", "C17_poi_are_node_vertices", "C17_poi_are_node_vertices_partial", "C17_poi_are_node_vertices_on_grid",
+        "C16_insertOneEdge_shape", "C16_insert_edges_inv", "C16_poi_are_vertices", "C17_poi_are_node_vertices", "C17_poi_are_node_vertices_partial", "C17_poi_are_node_vertices_on_grid", "C17_capture_pipeline_total_on_grid_partial", "C16_steps23_total_on_grid",
     ],
     "trusted_base": [
         "Lean 4.33 kernel; axioms propext, Classical.choice, Quot.sound only",
@@ -89,7 +89,11 @@ SPEC = {
         "position of the segments, OnChain (false exactly for the loops inside one cell of D17a); KeysOK, EdgeDartsInUse, well-formedness and "
         "absence of tags after step 3 are proved (the `_partial` theorems keep the first two as hypotheses); on the grid of the model's builder "
         "HitDartsOK is a theorem too (C17_poi_are_node_vertices_on_grid: no hypothesis about the map; geometry inside the grid with one cell of "
-        "margin). NOT proved: that every point of interest of a closed "
+        "margin). Success of the run (Props/C16Step5Pipe.lean, C17_capture_pipeline_total_on_grid_partial): on the builder grid steps 2-3 SUCCEED "
+        "for every geometry in general position inside the grid and every HashMap order (C16_steps23_total_on_grid), and step 5 succeeds under "
+        "the decidable condition pipelineReadyAll evaluated on the map after step 3 (edges of step 4 Ready, valued end points, pairwise "
+        "independent: C16_stepFive_total_indep_partial, forward totality of build_base_edge, insert_vertices_on_edge, the Node(j) replacement "
+        "and mark_boundary); NOT derived from the geometry: that condition. NOT proved: that every point of interest of a closed "
         "loop crossing a grid line satisfies OnChain; the chain through clip + classify_capture as one theorem",
         "C17_classify_asserts_never_fire: that the three debug_assert!s of classify_capture cannot fail on capture outputs "
         "(C17_classify_ok_all_anchored is the statement WITH the assertions, as in the debug build the harness runs). It is "
